@@ -33,6 +33,8 @@ type Config struct {
 	WALFailover    bool   `json:"walfailover,omitempty"`
 	TableStats     bool   `json:"tablestats,omitempty"` // table statistics collection on (enables delete-only / elision-only compactions)
 	AutoDefault    bool   `json:"autodefault,omitempty"` // automatic compactions on with Pebble's DEFAULT thresholds (no forced L0 compaction)
+	TinyLBase      bool   `json:"tinylbase,omitempty"`   // LBaseMaxBytes=1 with MANUAL compactions only: data comes to rest in intermediate levels
+	SharedCaches   bool   `json:"sharedcaches,omitempty"` // the harness passes its own block cache and file cache (kept referenced across Close)
 }
 
 // Options builds pebble.Options for this configuration on fs.
@@ -69,6 +71,9 @@ func (c Config) Options(fs vfs.FS) *pebble.Options {
 	}
 	if c.TinyManifest {
 		o.MaxManifestFileSize = 1
+	}
+	if c.TinyLBase {
+		o.LBaseMaxBytes = 1
 	}
 	if c.L0Sublevels {
 		o.FlushSplitBytes = 1
@@ -202,9 +207,11 @@ func (x *X) FillBatch(b *pebble.Batch, op Op, defVal string) error {
 		}
 	}
 	if op.Big {
-		// LogData adds to the batch size but not to its contents.
-		pad := make([]byte, int(x.Opts.MemTableSize)/2+1024)
-		if err := b.LogData(pad, nil); err != nil {
+		// A batch takes the flushable (large batch) path when its MEMTABLE size reaches half the
+		// memtable - LogData does not count towards that, so the padding is a real key with a big
+		// value. Readers report big values as "PAD" (see Val), the model stores "PAD".
+		pad := bytes.Repeat([]byte{'p'}, int(x.Opts.MemTableSize)/2+1024)
+		if err := b.Set([]byte(PadKey), pad, nil); err != nil {
 			return err
 		}
 	}
@@ -337,14 +344,14 @@ func ObservePoints(r pebble.Reader, universe []string) ([]KV, error) {
 	}
 	var fwd, bwd []KV
 	for v := it.First(); v; v = it.Next() {
-		fwd = append(fwd, KV{string(it.Key()), string(it.Value())})
+		fwd = append(fwd, KV{string(it.Key()), Val(it.Value())})
 	}
 	if err := it.Error(); err != nil {
 		it.Close()
 		return nil, errors.Wrap(err, "forward scan")
 	}
 	for v := it.Last(); v; v = it.Prev() {
-		bwd = append(bwd, KV{string(it.Key()), string(it.Value())})
+		bwd = append(bwd, KV{string(it.Key()), Val(it.Value())})
 	}
 	if err := it.Error(); err != nil {
 		it.Close()
@@ -376,7 +383,7 @@ func ObservePoints(r pebble.Reader, universe []string) ([]KV, error) {
 		if err != nil {
 			return fwd, errors.Wrapf(err, "Get(%s)", k)
 		}
-		sv := string(v)
+		sv := Val(v)
 		c.Close()
 		if w, ok := got[k]; !ok || w != sv {
 			return fwd, errors.Newf("Get(%s)=%s but scan has %q (present=%v)", k, sv, w, ok)
@@ -488,3 +495,15 @@ func l0Threshold(c Config) int {
 
 // Auto reports whether background compactions are enabled in this configuration.
 func (c Config) Auto() bool { return c.AutoCompact || c.AutoDefault }
+
+// PadKey is the key a Big batch writes its padding value to; it sorts after every key and span
+// the alphabets use.
+const PadKey = "zzpad"
+
+// Val renders a value for comparison with the model: padding values are reported as "PAD".
+func Val(v []byte) string {
+	if len(v) > 4096 {
+		return "PAD"
+	}
+	return string(v)
+}
